@@ -11,6 +11,7 @@ import (
 	"fmt"
 	"io"
 	"net"
+	"os"
 	"reflect"
 	"runtime"
 	"strconv"
@@ -394,6 +395,8 @@ type c19Link struct {
 	waiting      int           // Reads of the client's read side parked for data
 	direct       *bytes.Reader // while set, Read calls are served from here (a parked Read stays parked)
 	directOut    []byte        // ... and Write calls are collected here
+	faults       []c19Fault    // outcomes of the next Write calls (then: everything is taken)
+	wire         []byte        // every byte the client wrote outside direct mode
 	failDeadline bool          // SetReadDeadline fails
 	out          []byte        // written by the client, not yet parsed into frames
 	frames       []c19Frame    // complete frames the client wrote
@@ -426,12 +429,32 @@ func (l *c19Link) Read(p []byte) (int, error) {
 	return n, nil
 }
 
+// c19Fault: a Write call takes at most `take` bytes and returns err.
+type c19Fault struct {
+	take int
+	err  error
+}
+
 func (l *c19Link) Write(p []byte) (int, error) {
 	l.mu.Lock()
 	defer l.mu.Unlock()
+	var ferr error
+	if len(l.faults) > 0 {
+		f := l.faults[0]
+		l.faults = l.faults[1:]
+		if f.take < len(p) {
+			p = p[:f.take]
+		}
+		ferr = f.err
+	}
 	if l.direct != nil {
 		l.directOut = append(l.directOut, p...)
-		return len(p), nil
+		return len(p), ferr
+	}
+	l.wire = append(l.wire, p...)
+	if ferr != nil {
+		l.cond.Broadcast()
+		return len(p), ferr
 	}
 	l.out = append(l.out, p...)
 	for len(l.out) >= 10 {
@@ -830,6 +853,264 @@ func c19StateWrite(dst []byte, f []string) []byte {
 	return dst
 }
 
+// ---- every way a caller can put a message type on the connection (snd), and connections that fail
+// inside the header (wfl)
+
+type c19Out struct {
+	typ MessageType
+	n   int
+}
+
+func (o c19Out) MarshalBinary() ([]byte, error) { return make([]byte, o.n), nil }
+func (o c19Out) Type() MessageType              { return o.typ }
+
+type c19In struct{}
+
+func (c19In) UnmarshalBinary([]byte) error { return nil }
+func (c19In) Type() MessageType            { return MsgErrorMessage }
+
+// c19Build constructs a message of plen zero bytes the way api says; refused = it panicked or
+// returned an error.
+func c19Build(api string, typ MessageType, plen int) (m Message, refused bool) {
+	defer func() {
+		if recover() != nil {
+			refused = true
+		}
+	}()
+	var err error
+	switch api {
+	case "new":
+		if plen == 0 {
+			m = newMessage(nil, 0, typ)
+		} else {
+			m = newMessage(bytes.NewReader(make([]byte, plen)), uint32(plen), typ)
+		}
+	case "hdr":
+		m = NewHdrOnlyMsg(typ)
+	default: // byt
+		m, err = NewByteMessage(typ, make([]byte, plen))
+	}
+	return m, err != nil
+}
+
+func c19Types(spec string) []int {
+	var out []int
+	for _, part := range strings.Split(spec, ",") {
+		lo, hi, isRange := strings.Cut(part, "-")
+		a, _ := strconv.Atoi(lo)
+		b := a
+		if isRange {
+			b, _ = strconv.Atoi(hi)
+		}
+		for t := a; t <= b; t++ {
+			out = append(out, t)
+		}
+	}
+	return out
+}
+
+// c19StateSend: "snd <cfg> <hist> <api> <plen> <types>": on one client in that state, for every type
+// in turn a message of that type with plen zero payload bytes through api (new|hdr|byt: the
+// constructor, then SendNoWait; msg: SendMessage; for: SendFor, the peer answering whatever reaches
+// it).  Per type "R" (refused: panic or error; "R+<hex>" if bytes went out nevertheless) or the
+// bytes the peer received for it (hex).
+func c19StateSend(dst []byte, f []string) []byte {
+	s := c19Establish(f[1], f[2])
+	defer s.end()
+	s.l.settle()
+	api := f[3]
+	plen, _ := strconv.Atoi(f[4])
+	l := s.l
+	stuck := false // nothing takes messages any more: the remaining types are not tried ("T")
+	for i, t := range c19Types(f[5]) {
+		typ := MessageType(t)
+		if i > 0 {
+			dst = append(dst, ' ')
+		}
+		if stuck {
+			dst = append(dst, 'T')
+			continue
+		}
+		l.note(func() { l.wire = l.wire[:0]; l.frames = l.frames[:0] })
+		need := 10 + plen
+		refused := false
+		switch api {
+		case "new", "hdr", "byt":
+			var m Message
+			if m, refused = c19Build(api, typ, plen); !refused {
+				ctx, cancel := context.WithTimeout(s.ctx, c19Patience)
+				err := s.c.SendNoWait(ctx, m)
+				cancel()
+				refused = err != nil
+				stuck = errors.Is(err, context.DeadlineExceeded)
+			}
+			if !refused {
+				stuck = !l.wait(c19Patience, func() bool { return len(l.wire) >= need || l.connDone })
+			}
+		default:
+			var panicked bool
+			done := s.call(func() {
+				defer func() {
+					if recover() != nil {
+						panicked = true
+					}
+				}()
+				ctx, cancel := context.WithTimeout(s.ctx, c19Patience)
+				defer cancel()
+				if api == "msg" {
+					_, _, _ = s.c.SendMessage(ctx, typ, make([]byte, plen))
+				} else {
+					_ = s.c.SendFor(ctx, c19Out{typ, plen}, c19In{})
+				}
+			})
+			stuck = !l.wait(c19Patience, func() bool { return *done || len(l.wire) >= need || l.connDone })
+			l.mu.Lock()
+			got := len(l.wire) >= need
+			var id uint32
+			if got {
+				id = uint32(l.wire[6])<<24 | uint32(l.wire[7])<<16 | uint32(l.wire[8])<<8 | uint32(l.wire[9])
+			}
+			l.mu.Unlock()
+			if got {
+				s.send(c19Wire(1, 100, id, c19StatusOK)) // releases the caller
+			}
+			l.wait(c19Patience, func() bool { return *done || l.connDone })
+			refused = !got
+			_ = panicked
+		}
+		if stuck {
+			dst = append(dst, 'T')
+			continue
+		}
+		l.mu.Lock()
+		if refused {
+			dst = append(dst, 'R')
+			if len(l.wire) > 0 {
+				dst = append(dst, '+')
+			}
+		}
+		if !refused || len(l.wire) > 0 {
+			dst = append(dst, hex.EncodeToString(l.wire)...)
+		}
+		l.mu.Unlock()
+	}
+	return dst
+}
+
+func c19WriteErr(kind string) (error, bool) {
+	switch kind {
+	case "t":
+		return os.ErrDeadlineExceeded, true
+	case "n":
+		return &net.OpError{Op: "write", Net: "mem", Err: os.ErrDeadlineExceeded}, true
+	case "p":
+		return &net.OpError{Op: "write", Net: "mem", Err: errors.New("broken pipe")}, false
+	default:
+		return io.ErrClosedPipe, false
+	}
+}
+
+// c19StateWriteFault: "wfl <cfg> <hist> <via> <k> <kind> <then> <ver:typ:len:id;..>": the connection's
+// next Write takes k bytes and fails (kind t|n: a deadline error, o|p: another; k "-": no fault);
+// then = a: later Writes are accepted, f: they fail too.  via d: writeHeader called directly with
+// that Header; via q: a message of that type and length (zero bytes) through SendNoWait and the
+// write loop, followed by a marker message - a fresh client per header.  Per header
+// "<ok|E>:<bytes the peer received>" (ok = success reported / the write loop carried on), "R" refused.
+func c19StateWriteFault(dst []byte, f []string) []byte {
+	via, then := f[3], f[6]
+	install := func(l *c19Link) {
+		if f[4] == "-" {
+			return
+		}
+		k, _ := strconv.Atoi(f[4])
+		err, _ := c19WriteErr(f[5])
+		fs := []c19Fault{{k, err}}
+		if then == "f" {
+			for i := 0; i < 8; i++ {
+				fs = append(fs, c19Fault{0, err})
+			}
+		}
+		l.note(func() { l.faults = fs })
+	}
+	var s *c19Sess
+	defer func() {
+		if s != nil {
+			s.end()
+		}
+	}()
+	for i, it := range strings.Split(f[7], ";") {
+		if i > 0 {
+			dst = append(dst, ' ')
+		}
+		v := strings.Split(it, ":")
+		ver, _ := strconv.ParseUint(v[0], 10, 8)
+		typ, _ := strconv.ParseUint(v[1], 10, 16)
+		ln, _ := strconv.ParseUint(v[2], 10, 32)
+		id, _ := strconv.ParseUint(v[3], 10, 32)
+		if s == nil || via == "q" {
+			if s != nil {
+				s.end()
+			}
+			s = c19Establish(f[1], f[2])
+			s.l.settle()
+		}
+		l := s.l
+		if via == "d" {
+			l.note(func() { l.direct = bytes.NewReader(nil); l.directOut = l.directOut[:0] })
+			install(l)
+			err := s.c.writeHeader(Header{version: VersionNum(ver), typ: MessageType(typ), payloadLen: uint32(ln), id: messageID(id)})
+			l.mu.Lock()
+			if err != nil {
+				dst = append(dst, "E:"...)
+			} else {
+				dst = append(dst, "ok:"...)
+			}
+			dst = append(dst, hex.EncodeToString(l.directOut)...)
+			l.direct, l.faults = nil, nil
+			l.mu.Unlock()
+			continue
+		}
+		m, refused := c19Build("new", MessageType(typ), int(ln))
+		if refused {
+			dst = append(dst, 'R')
+			continue
+		}
+		l.note(func() { l.wire = l.wire[:0] })
+		install(l)
+		ctx, cancel := context.WithTimeout(s.ctx, c19Patience)
+		if s.c.SendNoWait(ctx, m) != nil {
+			cancel()
+			dst = append(dst, 'R')
+			continue
+		}
+		// the marker leaves the write loop only after everything of the message before it
+		const markerID = 0xC19FACED
+		mk := NewHdrOnlyMsg(MsgKeepAliveAck)
+		mk.id = markerID
+		marked := func() bool {
+			n := len(l.wire)
+			return n >= 10 && l.wire[n-4] == 0xC1 && l.wire[n-3] == 0x9F && l.wire[n-2] == 0xAC && l.wire[n-1] == 0xED
+		}
+		// ... or is refused because the write loop has ended (Connect then waits for the read
+		// side, which nobody ends before the session does)
+		var mkErr error
+		mkDone := s.call(func() { mkErr = s.c.SendNoWait(ctx, mk) })
+		l.wait(c19Patience, func() bool { return l.connDone || marked() || (*mkDone && mkErr != nil) })
+		cancel()
+		l.mu.Lock()
+		if marked() {
+			dst = append(dst, "ok:"...)
+			dst = append(dst, hex.EncodeToString(l.wire[:len(l.wire)-10])...)
+		} else {
+			dst = append(dst, "E:"...)
+			dst = append(dst, hex.EncodeToString(l.wire)...)
+		}
+		l.faults = nil
+		l.mu.Unlock()
+	}
+	return dst
+}
+
 func c19Csv(s string) []uint64 {
 	var out []uint64
 	for _, f := range strings.Split(s, ",") {
@@ -910,6 +1191,8 @@ func c19Decode(dst []byte, c *Client, conn *c19Conn, buf []byte) []byte {
 //	                                  connection refuses read deadlines)
 //	stw <cfg> <hist> <ver> <tlo> <thi> <lens> <ids>  the same client: writeHeader called directly for
 //	                                  Header{ver, typ in [tlo,thi], payloadLen, id}; the bytes written (hex)
+//	snd <cfg> <hist> <api> <plen> <types>   see c19StateSend
+//	wfl <cfg> <hist> <via> <k> <kind> <then> <v:t:l:i;..>   see c19StateWriteFault
 //	tables                            JSON dump of the message-type functions for all codes
 func TestVerifC19(t *testing.T) {
 	lines, w, done := verifIO(t)
@@ -1039,6 +1322,10 @@ func TestVerifC19(t *testing.T) {
 			out = c19StateDirect(out, f)
 		case "stw":
 			out = c19StateWrite(out, f)
+		case "snd":
+			out = c19StateSend(out, f)
+		case "wfl":
+			out = c19StateWriteFault(out, f)
 		case "tables":
 			out = append(out, c19Tables(t)...)
 		default:
